@@ -103,7 +103,7 @@ theorem J_crash {s : State} (h : J s) (w : String) : J (s.crash w) := by
 
 theorem J_count {cfg : Cfg} {s : State} (h : J s) (t : Int) : J (countMsg cfg s t) := by
   unfold countMsg; split
-  · exact h
+  · exact J_same h rfl rfl rfl
   · exact J_same h rfl rfl rfl
 
 /-- an event that is no close and touches at most `u`, which is open -/
@@ -507,19 +507,19 @@ theorem io_J {s : State} (h : J s) (a : Bool) (w : List Nat) (rs : List Read) : 
 
 theorem ticks_J {s : State} (h : J s) : J (ticks cfg s) := by
   unfold ticks
-  have h1 : J (if cfg.timing && s.now - s.tTiming > 900 then { sendTiming cfg s with tTiming := s.now } else s) := by
+  have h1 : J (if cfg.timing && s.now - s.tTiming > cfg.pTiming then { sendTiming cfg s with tTiming := s.now } else s) := by
     split
     · unfold sendTiming
       exact J_same (fwdTop_J cfg _ _ (J_same h (s' := { s with counts := [], inTraffic := true }) rfl rfl rfl)) rfl rfl rfl
     · exact h
-  generalize (if cfg.timing && s.now - s.tTiming > 900 then { sendTiming cfg s with tTiming := s.now } else s) = s1 at h1
+  generalize (if cfg.timing && s.now - s.tTiming > cfg.pTiming then { sendTiming cfg s with tTiming := s.now } else s) = s1 at h1
   dsimp only
-  have h2 : J (if s1.now - s1.tTraffic > 1000 then sendTraffic cfg s1 else s1) := by
+  have h2 : J (if s1.now - s1.tTraffic > cfg.pTraffic then sendTraffic cfg s1 else s1) := by
     split
     · unfold sendTraffic
       exact J_same (foldl_fwd_J cfg _ (logAt_J (fwdTop_J cfg) (J_same h1 (s' := { s1 with inTraffic := true }) rfl rfl rfl) 10)) rfl rfl rfl
     · exact h1
-  generalize (if s1.now - s1.tTraffic > 1000 then sendTraffic cfg s1 else s1) = s2 at h2
+  generalize (if s1.now - s1.tTraffic > cfg.pTraffic then sendTraffic cfg s1 else s1) = s2 at h2
   split
   · unfold sendActive
     exact J_same (fwdTop_J cfg _ _ (infoAll_J cfg _ (logAt_J (fwdTop_J cfg) h2 10))) rfl rfl rfl
